@@ -158,6 +158,15 @@ CHECKS = {
         "Trusted: rustc's i128 and IEEE float arithmetic as reference, the harness's decoding of the returned computation, the minimal hand-written Builtin signature.",
         "DESIGN.md section 5, C05",
     ),
+    "C20": (
+        "differential monitor: generated programs whose closed functions run as @[monadic] blocks at the identity monad vs the annotation-erased twin vs an independent CBPV reference evaluator, under the C01 step monitor",
+        "Every generated program runs one to three closed functions of the translation's supported subset (ret, do, let, functions, thunks, transparent data and matches, products, "
+        "host operations as block parameters, own parameters of value, data and thunk types) as `@[monadic] begin .. end` blocks instantiated with `Ret { ! ret_monad }` and shows "
+        "each result; unique literals and non-commutative sub / append make bind order observable. Accepted programs must print and exit exactly as the erased twin and as the "
+        "reference evaluator, and the interpreter run must never reach a stuck or undefined state. Rejections by the translation are recorded, not judged. Exploration.",
+        "Trusted: the harness reference evaluator and type-directed generator, lib/std/control/monad.zy as the Monad/Algebra basis, the hand-written identity-monad instance.",
+        "DESIGN.md section 5, C20",
+    ),
 }
 
 NOT_YET = "check not built yet in this revision of /verif (work in progress; see DESIGN.md section 5 for the planned monitor)"
